@@ -196,9 +196,79 @@ func c10Atoms() []*ref.Node {
 	}
 }
 
+// ellPairs fills ONE template object with every ordered pair of assignments in turn (the template is immutable: what an
+// earlier fill was given must not show in a later one), and gives every assignment twice as the SAME Go map (the map is
+// the caller's: a call must not consume it).
+func ellPairs(c *h.Ctx, tmpl *ref.Node, maxCount int) {
+	ells := ellipsisNames(tmpl)
+	radix := make([]int, len(ells))
+	for i := range radix {
+		radix[i] = maxCount + 2
+	}
+	total := product(radix...)
+	if total > 36 {
+		return
+	}
+	real := Build(tmpl)
+	tdesc := strings.ReplaceAll(ref.Print(tmpl), "\n", " ") + fmt.Sprintf(" (ellipses %v)", ells)
+	mk := func(a uint64) (map[string]int, map[string]interface{}) {
+		d := unrank(a, radix...)
+		counts, goMap := map[string]int{}, map[string]interface{}{}
+		for i, e := range ells {
+			if d[i] > 0 {
+				counts[e], goMap[e] = d[i]-1, d[i]-1
+			}
+		}
+		return counts, goMap
+	}
+	for a2 := uint64(1); a2 < total; a2++ {
+		counts2, goMap2 := mk(a2)
+		want := refEllipsisFill(tmpl, counts2)
+		// the same map object twice
+		r1, p1 := tryFill(real, goMap2)
+		r2, p2 := tryFill(real, goMap2)
+		c.Ops(2)
+		in := fmt.Sprintf("template %s filled twice with the same map object %v", tdesc, counts2)
+		if p1 != "" || p2 != "" {
+			c.Fail("ellipsis-fill-refused", in, p1+" / "+p2)
+		} else if dd := matchesRef(r2, want); dd != "" {
+			c.Fail("expansion-differs-when-the-map-is-used-again", in, dd+fmt.Sprintf(" (first call: %q)", matchesRef(r1, want)))
+		}
+		if len(ells) < 2 {
+			c.Case(0, true, "same-map-twice")
+			continue
+		}
+		for a1 := uint64(1); a1 < total; a1++ {
+			if a1 == a2 {
+				continue
+			}
+			counts1, goMap1 := mk(a1)
+			// a fill unlike both first (every ellipsis with a count outside the alphabet): whatever the object remembers
+			// of its last use is then about neither of the two, so the pair starts from the same state every time
+			flush := map[string]interface{}{}
+			for _, e := range ells {
+				flush[e] = maxCount + 1
+			}
+			tryFill(real, flush)
+			tryFill(real, goMap1)
+			_, fresh := mk(a2)
+			res, pan := tryFill(real, fresh)
+			c.Ops(3)
+			in := fmt.Sprintf("template %s filled with %v directly after the same object was filled with %v", tdesc, counts2, counts1)
+			if pan != "" {
+				c.Fail("ellipsis-fill-refused", in, pan)
+			} else if dd := matchesRef(res, want); dd != "" {
+				c.Fail("expansion-depends-on-the-previous-fill", in, dd)
+			}
+		}
+		c.Case(0, true, "after-every-other-assignment")
+	}
+}
+
 func ellCase(c *h.Ctx, tmpl *ref.Node, maxCount int, second bool) {
 	ells := ellipsisNames(tmpl)
 	real := Build(tmpl)
+	ellPairs(c, tmpl, maxCount)
 	tdesc := strings.ReplaceAll(ref.Print(tmpl), "\n", " ") + fmt.Sprintf(" (ellipses %v)", ells)
 	radix := make([]int, len(ells))
 	for i := range radix {
